@@ -352,7 +352,15 @@ class Interp:
         if isinstance(v, type) and self.is_interp_class(v):
             return self.getattr_class(v, name)
         # containers holding symbolic values: method access
-        if isinstance(v, (list, dict, set, tuple)) :
+        if isinstance(v, tuple) and hasattr(type(v), "_fields"):
+            # NamedTuple instance (possibly holding symbolic fields)
+            if name in type(v)._fields:
+                return getattr(v, name)
+            r = self.lookup_class_attr(type(v), name)
+            if r is not None and self.is_interp_class(r[1]):
+                return self.bind_class_attr(v, r[0], r[1], name)
+            return ModelMethod(v, name)
+        if isinstance(v, (list, dict, set, tuple)) or type(v).__name__ in ("SymList", "SymDict"):
             return ModelMethod(v, name)
         # concrete python object
         if not isinstance(v, type) and self.is_interp_class(type(v)) and not isinstance(v, enum.Enum):
@@ -549,6 +557,11 @@ class Interp:
     def construct(self, cls, args, kwargs):
         if inspect.isabstract(cls):
             self.raise_py(TypeError, f"Can't instantiate abstract class {cls.__name__}")
+        if issubclass(cls, tuple) and hasattr(cls, "_fields"):
+            try:
+                return cls(*args, **kwargs)  # NamedTuple: a plain container, fields may be symbolic
+            except TypeError as e:
+                self.raise_py(TypeError, *e.args)
         rnew = self.lookup_class_attr(cls, "__new__")
         if rnew is not None and rnew[1] is not object and self.is_interp_class(rnew[1]):
             raise Unsupported(f"custom __new__ in {cls.__name__}")
